@@ -281,6 +281,132 @@ func c13Enum(nids, L int, emit func([]qev)) {
 	rec(nil, make([]bool, nids), make([]bool, nids), 10)
 }
 
+// A request handled by the real dispatch stage on the submitter (it forwards the node's own share,
+// then registers with the collector) is cancelled - before or after the own share went through - and
+// peers' shares for it keep arriving: the collector must go on serving.  Returns "ok", "P", "H".
+func c13DispatchCancel(variant int, nLate int) string {
+	net := doubles.NewFakeP2P([]byte("node"))
+	net.ChanBuf = 0
+	node := dosnode.VerifNewNode(net, nil, nil, []byte("node"), doubles.NopLogger{}, 0)
+	panicked := make(chan struct{})
+	exited := make(chan struct{})
+	go func() {
+		defer close(exited)
+		defer func() {
+			if r := recover(); r != nil {
+				hx.LastPanic = fmt.Sprint("queryLoop panicked: ", r)
+				close(panicked)
+			}
+		}()
+		node.VerifQueryLoop()
+	}()
+	defer func() {
+		node.VerifCancel()
+		select {
+		case <-exited:
+		case <-time.After(c13Timeout):
+		}
+	}()
+	ch := net.WaitSub(vss.Signature{}, time.Second)
+	if ch == nil {
+		return "H"
+	}
+	send := func(id []byte, x int) string {
+		m := p2p.P2PMessage{Msg: ptypes.DynamicAny{Message: &vss.Signature{RequestId: id, Content: []byte{byte(x)}}}}
+		select {
+		case ch <- m:
+			return ""
+		case <-panicked:
+			return "P"
+		case <-time.After(c13Timeout):
+			return "H"
+		}
+	}
+	rid := []byte{0x0c, 0x0d}
+	ctx, cancel := context.WithCancel(context.Background())
+	defer cancel()
+	subc := make(chan []byte, 1)
+	subc <- []byte("node") // this node is the submitter
+	signc := make(chan *vss.Signature)
+	out := node.VerifDispatchSign(ctx, subc, signc, rid, 2)
+	drain := make(chan struct{})
+	go func() { // the next stage: takes what the dispatch stage and the collector hand over
+		defer close(drain)
+		for {
+			select {
+			case _, ok := <-out:
+				if !ok {
+					return
+				}
+			case <-ctx.Done():
+				return
+			}
+		}
+	}()
+	switch variant {
+	case 0: // cancelled while the stage still waits for the node's own share
+		time.Sleep(20 * time.Millisecond)
+		cancel()
+	case 1: // the own share went through and the request is registered, then cancelled
+		select {
+		case signc <- &vss.Signature{RequestId: rid, Content: []byte{1}}:
+		case <-time.After(c13Timeout):
+			return "H"
+		}
+		time.Sleep(20 * time.Millisecond)
+		cancel()
+	}
+	<-drain
+	time.Sleep(10 * time.Millisecond)
+	for i := 0; i < nLate; i++ {
+		if r := send(rid, 50+i); r != "" {
+			return r
+		}
+	}
+	// another request is still served
+	other := []byte{0x0e}
+	ctx2, cancel2 := context.WithCancel(context.Background())
+	defer cancel2()
+	reply := make(chan *vss.Signature)
+	got := make(chan int, 4)
+	go func() {
+		for {
+			select {
+			case s, ok := <-reply:
+				if !ok {
+					return
+				}
+				got <- int(s.Content[0])
+			case <-ctx2.Done():
+				return
+			}
+		}
+	}()
+	okc := make(chan bool, 1)
+	go func() { okc <- node.VerifRegister(context.Background(), ctx2, string(other), 2, reply) }()
+	select {
+	case <-okc:
+	case <-panicked:
+		return "P"
+	case <-time.After(c13Timeout):
+		return "H"
+	}
+	if r := send(other, 77); r != "" {
+		return r
+	}
+	select {
+	case v := <-got:
+		if v != 77 {
+			return "H"
+		}
+	case <-panicked:
+		return "P"
+	case <-time.After(c13Timeout):
+		return "H"
+	}
+	return "ok"
+}
+
 // the same alphabet plus a second registration of an id (a new handle: new context, new reply
 // channel) after the first, and its cancellation
 func c13EnumRereg(nids, L int, emit func([]qev)) {
@@ -395,6 +521,23 @@ func genC13(rng *hx.Rng, tier string, w *hx.Writer) error {
 		c13Case(w, it.evs, it.nids, it.tag)
 	}
 	c13EndToEnd(rng, tier, w)
+	// the real dispatch stage, cancelled before / after its registration, late shares afterwards
+	nd := 4
+	if tier == "thorough" {
+		nd = 24
+	}
+	for it := 0; it < nd; it++ {
+		variant := it % 2
+		res := c13DispatchCancel(variant, 16)
+		oracle := "ok"
+		switch res {
+		case "P":
+			oracle = hx.Fail("collector-panic", fmt.Sprintf("a request of the real dispatch stage was cancelled (variant %d) and 16 late shares for it arrived: %s", variant, hx.LastPanic))
+		case "H":
+			oracle = hx.Fail("collector-wedged", fmt.Sprintf("after a request of the real dispatch stage was cancelled (variant %d) the collector stopped serving", variant))
+		}
+		w.Put(hx.Case{Entry: "-", Op: 0, Args: hx.L(hx.Zi(variant)), Impl: hx.B([]byte(res)), Oracle: oracle, Tags: []string{"dispatch-cancelled", "nt"}})
+	}
 	return nil
 }
 
